@@ -874,6 +874,16 @@ def oracle_module(ck: Check, camp, inp: dict, code: str, kind: str, executable: 
         for ev in obs["events"]:
             if ev["kind"] == "name_error":
                 name = ev["undefined"] or "?"
+                # a string-valued hiding member handed to a typing construct is taken for a forward reference: resolving
+                # it raises NameError for the STRING (`str: … = 'd'` next to `Dict[str, int]` → name 'd' is not defined)
+                strc = [i for i, p in enumerate(hid) if p["top"] == ev["top"] and p.get("str_hider") and p["effect"] in ("passed_on", "value_dependent")]
+                if strc and name not in identifiers_of(code):
+                    demonstrated.update(strc)
+                    p = hid[strc[0]]
+                    failures.append((shadow_classification(p, kind, "static+dynamic", inp, code, "exception"),
+                                     f"{ev['text']} at {ev['where']}: member {p['name']!r} of {p['cls']} has a string value that is taken for a forward reference where the "
+                                     f"{p['use_kind']} of {p['cls']}.{p['user']} reads the name {p['name']}"))
+                    continue
                 st = next((p for p in static if p["name"] == name), None)
                 at_import = ev["where"] == "module import"
                 mech = st["mechanism"] if st else ("missing_import" if at_import else "unresolved_forward_ref")
@@ -958,6 +968,19 @@ def oracle_module(ck: Check, camp, inp: dict, code: str, kind: str, executable: 
             reported.add(key)
             ck.fail(cls, dict(inp, code=code), observed)
     return False
+
+
+def identifiers_of(code: str) -> set[str]:
+    """every identifier the module's text reads or binds"""
+    out: set[str] = set()
+    for n in ast.walk(ast.parse(code)):
+        if isinstance(n, ast.Name):
+            out.add(n.id)
+        elif isinstance(n, (ast.ClassDef, ast.FunctionDef)):
+            out.add(n.name)
+        elif isinstance(n, ast.alias):
+            out.add((n.asname or n.name).split(".")[0])
+    return out
 
 
 def text_context(name: str, code: str) -> str:
@@ -1122,6 +1145,9 @@ def random_sdl(rng: Rng) -> str:
 
 
 E2E_CORPUS = [
+    # seed 5 (thorough): a string-valued member `str` next to Dict[str, int] in dataclass output: get_type_hints raises NameError for the string's text (C02-F7), not an unresolved forward reference
+    ({"title": "Doc", "type": "object", "properties": {"m": {"type": "object", "additionalProperties": {"type": "integer"}}, "str": {"type": "string", "default": "d"}}},
+     "dataclasses.dataclass", {}, None, "jsonschema"),
     # seed 5 (quick): the observer gave up comparing `Dict[str, constr(min_length=1)]` (an Annotated part) and reported a disagreement; the key really resolves to NoneType (C02-F7)
     ({"title": "Str", "type": "object", "required": ["conint"], "properties": {"conint": {"type": "object", "additionalProperties": {"type": "string", "minLength": 1}},
                                                                                  "bool": {"type": "string", "format": "ipv4"}, "str": {"type": "string", "format": "path"}}},
